@@ -417,17 +417,8 @@ class SessionHandler:
 
     @staticmethod
     def _verify_session_id(previous: str, current: str) -> None:
-        if previous is not None:
-            _previous = previous.split(";")
-
-            if _previous:
-                if current == _previous[0]:
-                    SessionHandler.id += 1
-                    return
-
-            SessionHandler.reset()
-            return
-        
+        #: The counter is never restarted, whichever identity it is handed 
+        #: out for: Session-Ids must stay unique for the process lifetime.
         SessionHandler.id += 1
 
 
